@@ -1,7 +1,7 @@
 //! C16 — seconds and hertz mean the same at every device sample rate and across changes.
 //!
 //! Seconds are always *true* seconds: the harness plays the backend, so it knows the rate in force for every frame.
-//! Part A (grid): 7 scenes (sound duration+pitch, delayed start, clock-scheduled start, volume
+//! Part A (grid): 11 scenes (sound duration+pitch, delayed start, clock-scheduled start, volume
 //!   tween, delay echo, filter corner, EQ centre) x device rate r1 x rate r2 x moment of the change
 //!   (before callback 0..4, or never) x internal buffer size x scene parameters. Event times are
 //!   measured in seconds (sum of frames / rate in force, taken from the dt the main track sees).
@@ -244,7 +244,9 @@ fn delay_us(t: Tier) -> &'static [u64] {
 	t.pick(&[2000][..], &[500, 2000, 3300][..])
 }
 const NONE: usize = usize::MAX;
-const SCENES: [&str; 9] = ["sound", "delayed-start", "clock", "tween", "delay", "filter", "eq", "delay, rate changed and changed back", "reverb early reflections"];
+const SCENES: [&str; 11] = ["sound", "delayed-start", "clock", "tween", "delay", "filter", "eq", "delay, rate changed and changed back", "reverb early reflections", "delay in the feedback loop of a one-frame delay", "lfo"];
+const LFO_HZ: [f64; 3] = [3.0, 113.0, 1130.0];
+const LFO_WAVES: [&str; 4] = ["sine", "triangle", "saw", "pulse(0.5)"];
 const PLACEMENTS: [&str; 4] = ["main", "sub", "nested", "send"];
 
 #[derive(Clone, Copy, PartialEq, Eq, Hash, Debug)]
@@ -347,7 +349,7 @@ impl Check for C16 {
 		}
 	}
 	fn rule(&self) -> String {
-		"A: 9 scenes (incl. a delay whose rate changes and changes back, and the reverb's early reflections) x r1 x r2 x change moment {never, before callback 0..4} x internal buffer x {sound rate | delay time x placement main/sub/nested/send}; times in true seconds = sum of frames / device rate in force (the harness plays the backend and knows it; the dt handed to process is checked against it); tolerances: one device frame (+ one processing chunk where kira quantises to chunks: clock start, delayed start, tween); filter/EQ corner gain compared with the 48 kHz rendering. B: all histories <= depth over {callback, change rate, drop the parents' handles, 7 track-creation paths each with probe effect + 2 ms delay carrying a probe as feedback effect}, epilogue adopts and measures every track; oracle: on every process call the rate last told == device rate in force == 1/dt, echo time == delay_time +- 1 frame. C: E2 schedules of add-track || change+callback. states = distinct (rate, per-track adopted/told) model states; non-trivial = grid runs in which the measured event was observed / histories with at least one added track whose probe was processed".into()
+		"A: 11 scenes (incl. a delay whose rate changes and changes back, the reverb's early reflections, a delay nested in the feedback loop of a one-frame delay, and LFOs of 3 / 113 / 1130 Hz x 4 waveforms read through a track volume) x r1 x r2 x change moment {never, before callback 0..4} x internal buffer x {sound rate | delay time x placement main/sub/nested/send}; times in true seconds = sum of frames / device rate in force (the harness plays the backend and knows it; the dt handed to process is checked against it); tolerances: one device frame (+ one processing chunk where kira quantises to chunks: clock start, delayed start, tween); filter/EQ corner gain compared with the 48 kHz rendering. B: all histories <= depth over {callback, change rate, drop the parents' handles, 7 track-creation paths each with probe effect + 2 ms delay carrying a probe as feedback effect}, epilogue adopts and measures every track; oracle: on every process call the rate last told == device rate in force == 1/dt, echo time == delay_time +- 1 frame. C: E2 schedules of add-track || change+callback. states = distinct (rate, per-track adopted/told) model states; non-trivial = grid runs in which the measured event was observed / histories with at least one added track whose probe was processed".into()
 	}
 	fn assumptions(&self) -> Vec<String> {
 		vec![
@@ -459,14 +461,15 @@ fn grid_case(t: Tier, scene: usize, r1: u32, ctx: &mut Ctx) {
 				let p = Plan { r1, r2, k, ibs };
 				let variants: Vec<(u64, usize)> = match scene {
 					0 => sound_rates(t).iter().map(|s| (*s as u64, 0)).collect(),
-					4 | 7 => delay_us(t).iter().flat_map(|d| (0..4).map(move |pl| (*d, pl))).collect(),
+					4 | 7 | 9 => delay_us(t).iter().flat_map(|d| (0..4).map(move |pl| (*d, pl))).collect(),
+					10 => (0..LFO_HZ.len() as u64).flat_map(|f| (0..LFO_WAVES.len()).map(move |wv| (f, wv))).collect(),
 					_ => vec![(0, 0)],
 				};
 				for (a, b) in variants {
 					ctx.evals += 1;
 					ctx.traces += 1;
 					ord += 1;
-					let what = || format!("scene {} [{}{}]: {}", SCENES[scene], if scene == 0 { format!("sound rate {} Hz", a) } else if scene == 4 || scene == 7 { format!("delay_time {} us on the {} track{}", a, PLACEMENTS[b], if scene == 7 { "; the rate returns to the first rate immediately before callback 6" } else { "" }) } else { String::new() }, "", p.text());
+					let what = || format!("scene {} [{}{}]: {}", SCENES[scene], if scene == 0 { format!("sound rate {} Hz", a) } else if scene == 10 { format!("{} LFO at {} Hz mapped to a track volume of -12..0 dB", LFO_WAVES[b], LFO_HZ[a as usize]) } else if scene == 4 || scene == 7 || scene == 9 { format!("delay_time {} us on the {} track{}", a, PLACEMENTS[b], if scene == 7 { "; the rate returns to the first rate immediately before callback 6" } else { "" }) } else { String::new() }, "", p.text());
 					ctx.sample(ord, what);
 					let mut fails: Vec<(String, String)> = vec![];
 					let r = catch(|| match scene {
@@ -474,7 +477,9 @@ fn grid_case(t: Tier, scene: usize, r1: u32, ctx: &mut Ctx) {
 						1 => scene_start(&p, false, &mut fails),
 						2 => scene_start(&p, true, &mut fails),
 						3 => scene_tween(&p, &mut fails),
-						4 => scene_delay(&p, a, b, false, &mut fails),
+						4 => scene_delay(&p, a, b, false, false, &mut fails),
+						9 => scene_delay(&p, a, b, false, true, &mut fails),
+						10 => scene_lfo(&p, LFO_HZ[a as usize], b, &mut fails),
 						8 => {
 							if p.k != NONE && p.k > 1 {
 								Ok((false, 0))
@@ -486,7 +491,7 @@ fn grid_case(t: Tier, scene: usize, r1: u32, ctx: &mut Ctx) {
 							if p.k == NONE || p.k > 2 {
 								Ok((false, 0))
 							} else {
-								scene_delay(&p, a, b, true, &mut fails)
+								scene_delay(&p, a, b, true, false, &mut fails)
 							}
 						}
 						_ => scene_corner(&p, scene == 6, &mut fails),
@@ -758,9 +763,22 @@ fn delay_fx(us: u64, wet: bool, fb: Option<Arc<FxState>>) -> Box<dyn Effect> {
 	b.build().0
 }
 
-fn scene_delay(p: &Plan, us: u64, placement: usize, roundtrip: bool, fails: &mut Vec<(String, String)>) -> SceneObs {
+/// a delay of one frame at every rate (its own line never changes length) that carries the delay under test, fully wet, in its
+/// feedback loop: dry impulse, then the first loud echo after one frame + delay_time
+fn nested_delay_fx(us: u64, wet: bool) -> Box<dyn Effect> {
+	// kira's wet signal carries the feedback gain: inner -6 dB, outer 0 dB give a first echo of half the impulse and
+	// nothing above a quarter after it
+	let inner = DelayBuilder::new().delay_time(Duration::from_micros(us)).feedback(Decibels(-6.0)).mix(Mix::WET);
+	let mut b = DelayBuilder::new().delay_time(Duration::from_micros(1)).feedback(Decibels(0.0)).with_feedback_effect(inner);
+	if wet {
+		b = b.mix(Mix::WET);
+	}
+	b.build().0
+}
+
+fn scene_delay(p: &Plan, us: u64, placement: usize, roundtrip: bool, nested: bool, fails: &mut Vec<(String, String)>) -> SceneObs {
 	let ncb = NCB_FX;
-	let mut pl = place(p, placement, ncb, delay_fx(us, placement == 3, None))?;
+	let mut pl = place(p, placement, ncb, if nested { nested_delay_fx(us, placement == 3) } else { delay_fx(us, placement == 3, None) })?;
 	warm(&mut pl.w)?;
 	let f = pl.fire.clone();
 	let mut back_err = None;
@@ -781,13 +799,16 @@ fn scene_delay(p: &Plan, us: u64, placement: usize, roundtrip: bool, fails: &mut
 	}
 	let rec = pl.w.rec();
 	tap_verdict(&pl.w, p, fails);
-	let want = us as f64 * 1e-6;
+	let want0 = us as f64 * 1e-6;
 	let mut oh = vec![];
 	let mut seen = false;
 	let wins = if roundtrip { vec![(starts[8], starts[12], p.r1, true)] } else { windows(p, &starts) };
 	for (a, b, rate, after) in wins {
+		let want = want0 + if nested { 1.0 / rate as f64 } else { 0.0 };
 		let short = (want * rate as f64) < p.ibs as f64;
-		let feat = if roundtrip {
+		let feat = if nested {
+			format!("delay inside the feedback loop of a one-frame delay, {}, on the {} track", if after { "after a rate change" } else { "constant rate" }, PLACEMENTS[placement])
+		} else if roundtrip {
 			format!("after the rate changed and changed back, effect on the {} track", PLACEMENTS[placement])
 		} else if after { format!("after a rate change, effect on the {} track", PLACEMENTS[placement]) } else { format!("constant rate, delay {} one internal buffer", if short { "shorter than" } else { "at least" }) };
 		match echo_time(&rec, a, b) {
@@ -802,6 +823,82 @@ fn scene_delay(p: &Plan, us: u64, placement: usize, roundtrip: bool, fails: &mut
 		}
 	}
 	Ok((seen, hash64(&oh)))
+}
+
+struct Dc(f32);
+impl Sound for Dc {
+	fn process(&mut self, out: &mut [Frame], _dt: f64, _info: &Info) {
+		out.fill(Frame::from_mono(self.0));
+	}
+	fn finished(&self) -> bool {
+		false
+	}
+}
+struct DcData(f32);
+impl SoundData for DcData {
+	type Error = ();
+	type Handle = ();
+	fn into_sound(self) -> Result<(Box<dyn Sound>, ()), ()> {
+		Ok((Box::new(Dc(self.0)), ()))
+	}
+}
+/// an LFO of `hz` hertz drives the volume of a track that carries a constant: at the end of every processing chunk
+/// (where the linked parameter equals the mapped LFO value) the level is the waveform at hz x (true seconds since the start)
+fn scene_lfo(p: &Plan, hz: f64, wave: usize, fails: &mut Vec<(String, String)>) -> SceneObs {
+	use kira::modulator::lfo::{LfoBuilder, Waveform};
+	let ncb = 10;
+	let mut w = world(p.r1, p.ibs, log_cap(p, ncb), None);
+	let wf = [Waveform::Sine, Waveform::Triangle, Waveform::Saw, Waveform::Pulse { width: 0.5 }][wave];
+	let lfo = w.m.add_modulator(LfoBuilder::new().waveform(wf).frequency(hz)).map_err(|_| "modulator limit".to_string())?;
+	let mapping = kira::Mapping { input_range: (-1.0, 1.0), output_range: (Decibels(-12.0), Decibels(0.0)), easing: Easing::Linear };
+	let mut t = w.m.add_sub_track(TrackBuilder::new().volume(kira::Value::FromModulator { id: lfo.id(), mapping })).map_err(|_| "track limit".to_string())?;
+	t.play(DcData(0.5)).map_err(|_| "play".to_string())?;
+	let mut sizes = vec![];
+	let starts = drive(&mut w, p, ncb, &mut |w, _| sizes.push(cbf(w.rate)))?;
+	let rec = w.rec();
+	tap_verdict(&w, p, fails);
+	let mut oh = vec![];
+	let mut judged = 0;
+	'outer: for j in 0..ncb {
+		let (a, n) = (starts[j], starts[j + 1] - starts[j]);
+		let mut off = 0;
+		while off < n {
+			let len = p.ibs.min(n - off);
+			let e = a + off + len - 1;
+			off += len;
+			let ph = (hz * rec.t[e + 1]).fract();
+			// next to a jump of the waveform the phase rounding decides the side: not judged
+			let near = |x: f64| (ph - x).abs() < 1e-4;
+			let skip = match wave {
+				2 => near(0.5),
+				3 => near(0.0) || near(0.5) || near(1.0),
+				_ => false,
+			};
+			if skip {
+				continue;
+			}
+			let v = match wave {
+				0 => (ph * std::f64::consts::TAU).sin(),
+				1 => ((ph + 0.75).fract() - 0.5).abs() * 4.0 - 1.0,
+				2 => (ph + 0.5).fract() * 2.0 - 1.0,
+				_ => if ph < 0.5 { 1.0 } else { -1.0 },
+			};
+			let want = 0.5 * 10f64.powf((-12.0 + (v + 1.0) * 6.0) / 20.0);
+			let got = rec.v[e] as f64;
+			judged += 1;
+			oh.push(q(got, 1e-3));
+			// slope of the level against the phase is at most 0.5 * ln(10)/20 * 12 dB * 4 per cycle: phase error 1e-6 is far below 1e-4
+			if (got - want).abs() > 1e-4 {
+				fails.push((
+					format!("lfo: the level at the end of a processing chunk is not the waveform at frequency x elapsed seconds :: {} {}", LFO_WAVES[wave], if hz * p.chunk_s() >= 1.0 { "period shorter than a chunk" } else { "period longer than a chunk" }),
+					format!("callback {} frame {} ({:.6} s after the start, rate in force {} Hz): phase {:.4}, waveform {:.4}, expected level {:.5}, got {:.5}", j, e - a, rec.t[e + 1], (1.0 / rec.dt[e]).round(), ph, v, want, got),
+				));
+				break 'outer;
+			}
+		}
+	}
+	drop((t, lfo));
+	Ok((judged > 0, hash64(&oh)))
 }
 
 /// Freeverb's delay lines are tuned in frames at 44.1 kHz, i.e. in seconds: the first reflection (comb 1116 frames) and the
